@@ -375,103 +375,107 @@ Qty // c71a
 ""CRC32"" ) , // c75
 } // c76
 ")).
-Eval vm_compute in ("<<<M1309>>>" ++ check (runes_of_ascii "// top
-packet // c0a
-  // c0b
-A { // c2
-u8 // c3a
-  // c3b
-a , // c5
-} // c6a
-  // c6b
-packet // c7a
-  // c7b
-B {
-    // c9
-u16 b // c11
-, } // c13a
-  // c13b
-packet // c14
-C
-    // c15
+Eval vm_compute in ("<<<M1445>>>" ++ check (runes_of_ascii "
+
+  options {
+	FixedStringPadFromLeft
+    = true;
+    FixedStringPadChar= '0' 
+;	}
+packet
+Leg
+{ 
+repeat
+
+    InSym93 
 {
-    // c16
-u32
-    // c17
-c // c18
-, // c19a
-  // c19b
-}
-    // c20
-root packet // c22a
-  // c22b
-M // c23
-{ u16 Kc
-    // c26
+	zchar[ 
+3 ]
+
+    Acct
+	,
+string
+Side2
+, i32
+Flags
+,  f32 Note
+	,
+i32
+	msgKind	,},
+
+    f64
+Note , uint16
+Px
+	,
+
+} packet  Quote	{  zchar[  2
+]
+
+OrderId ,  }packet
+
+    Ack{  repeat
+
+    string lastPx ,
+
+zchar[
+    4  ]price
+,  uint32 OrderId ,
+	Quote, int8
+Acct
+, 
+} packet Fill
+
+    { repeat	Leg  ,
+
+@rightPad (  '0')	char[ 11	] Note ,	f64
+
+    Px
+    ,
+
+    @rightPad  (
+    '\x00'	)  char[
+    5
+
+    ]
+Flags , zchar[ 9 
+]	x  ,
+
+string msgKind
+    ,
+    } root packet Order  { 
+Leg 
+, repeat
+
+    Ack
+, @rightPad
+(	'\x00'	) char[
+	3
+]Side2
 ,
-    // c27
-u16 // c28a
-  // c28b
-Kb , // c30
-u16 Ka
-    // c32
-, match // c34a
-  // c34b
-Kc // c35
-as X
-    // c37
-{
-    // c38
-9 // c39
-:
-    // c40
-A
-    // c41
-, 10 :
-    // c44
-B
-    // c45
+	repeat  char[
+	1]
+seqNo
 ,
-    // c46
-} , match
-    // c49
-Kb // c50
-as // c51a
-  // c51b
-Y // c52
-{ 2 // c54a
-  // c54b
-:
-    // c55
-C , // c57
-1 // c58
-: A , // c61a
-  // c61b
-} // c62
-, // c63a
-  // c63b
-match
-    // c64
-Ka as // c66
-Z // c67
-{
-    // c68
-1 // c69a
-  // c69b
-: B // c71a
-  // c71b
-, // c72
-} // c73a
-  // c73b
-, // c74
-A // c75a
-  // c75b
-, // c76
-B
-    // c77
+
+    u16  clOrdID
 ,
-    // c78
-C , // c80
+
+match  clOrdID as Body {
+
+    198:	Leg
+
+    ,
+23
+: 
+Quote 
+,	13 
+: Ack, 
+159:Fill,
+    } ,	u32
+
+    venue
+	@calculatedFrom(""CRC32"") 
+,
 } ")).
 Eval vm_compute in ("<<<M1419>>>" ++ check (runes_of_ascii "
 // " ++ [27880; 37322]%N ++ runes_of_ascii "
@@ -783,59 +787,34 @@ root packet Cancel {
     u16 count @calculatedFrom(""CR\
         C32""),
 }")).
-Eval vm_compute in ("<<<M1795>>>" ++ check (runes_of_ascii "//	t
-packet
-    u8x  { u8x	{ body
-	@calculatedFrom( ""`tick`""
-) 
-`say ""hi""` , match  a1
-as
-	asx // c
-  {
-//	t
-
-0	:
-    // " ++ [27880; 37322]%N ++ runes_of_ascii "
-
-  // @lengthOf(
-
-	asx}  ,}, 
-@rightPad (
-) match
-
-    Logon as  x
-
-{
-    [00  ,
-""// no comment""
-
-    ,
-
-""a\\"" , 0123456789
-// trailing space 
-
-, 4294967296] :crc	, 
-00
-: options1, 	 // " ++ [27880; 37322]%N ++ runes_of_ascii "
-    42 : i8i8 ,
-    0
-
-:  o
-	0123456789 :
-body
-, }	, @tag(
-    7 
-)
-    float@lengthOf(
-
-stringy	)`" ++ [233]%N ++ runes_of_ascii "` 
+Eval vm_compute in ("<<<M294>>>" ++ check (runes_of_ascii "options { rootA = 4294967296 ; falsey = ""a\""b""
+;
+As =
+// @lengthOf(
+/// triple
+""""
+;packetx
+    = ""packet"" i8i8 =true ;
+} // `tick` ""quote"" 'q'
+packet x  { repeat zchar
+rootA , char[]
+    pack  `// not a comment`
+,@tag( 00 )
+@tag( 0123456789)
+u @calculatedFrom( ""packet"" )`u8 x,` , Header{
+    zchar[ 00
+    ] body
 ,
-    u
-        // c
-    @lengthOf(msg_type
-    )
-    ,
-    }")).
+    a1	@calculatedFrom( // " ++ [128512]%N ++ runes_of_ascii " emoji
+""it's"" )
+`" ++ [233]%N ++ runes_of_ascii "`, }, } // " ++ [27880; 37322]%N ++ runes_of_ascii "
+MetaData
+    A // a // b
+{zchar /// triple
+matchKey
+    `` , int64 metadata ,char[] _x //	t
+, }
+")).
 Eval vm_compute in ("<<<M1848>>>" ++ check (runes_of_ascii "
 packet	crc
 	    // a // b
@@ -962,18 +941,24 @@ root packet f32a {
     @tag(255)
     repeat u8 stringy,
 }")).
-Eval vm_compute in ("<<<M1491>>>" ++ check (runes_of_ascii "packet tag {
-}
-
-packet falsey {
-    string charz @lengthOf(zchar),
-    string u @calculatedFrom(""" ++ [233]%N ++ runes_of_ascii "t" ++ [233]%N ++ runes_of_ascii """) `// not a comment`,
-    @leftPad('0')
-    char[] leftPad @calculatedFrom(""a	b"") `// not a comment`,
-    @calculatedFrom(""`tick`"")
-    @lengthOf(roots)
-    repeat MetaDataX,
-}")).
+Eval vm_compute in ("<<<M215>>>" ++ check (runes_of_ascii "root	packet
+    i8i8 { @tag( // c
+4294967296 )
+    // packet A { u8 x, }
+    Header  calculatedFrom `
+`
+, @tag(4294967296 )
+@rightPad ( ' '
+    )
+@lengthOf( float )
+    options1 zchar `" ++ [233]%N ++ runes_of_ascii "`
+//x
+/// triple
+,}	root packet
+    // " ++ [128512]%N ++ runes_of_ascii " emoji
+    x {repeat
+zchar[  10 ]	x`u8 x,`,
+    }")).
 Eval vm_compute in ("<<<M1631>>>" ++ check (runes_of_ascii "packet Foo {
     @lengthOf(f32a)
     char[0123456789] float `u8 x,`,
